@@ -14,10 +14,10 @@ from envlib import Adapter, Config, diff_json, tree_index
 class A(Adapter):
     name = "tetris"
     lean = "tetris"
-    serves = {"C04", "C05", "C07", "C09", "C11", "C12"}
+    serves = {"C01", "C04", "C05", "C07", "C09", "C11", "C12"}
     terminate_on_invalid = True
     max_steps = 60
-    ops = ("state", "step", "judge", "reset", "table")
+    ops = ("state", "step", "judge", "reset", "table", "bounds")
     state_fields = ["grid_padded", "grid_padded_old", "tetromino_index", "old_tetromino_rotated", "new_tetromino",
                     "x_position", "y_position", "action_mask", "full_lines", "score", "reward", "is_reset",
                     "step_count"]
